@@ -795,6 +795,14 @@ func (st *c03State) classifyCallFact(s mapSite, f regionFact, addS func(token.Po
 		idiom("I3 delete")
 		return
 	}
+	if f.Kind == "store" && f.Counter {
+		// x++ / x-- in a callee: the value after the loop does not depend on the order of the iterations —
+		// as long as nothing but the test of a budget (an error exit: the run fails whatever the order) reads it
+		if fin := f.Final(); fin != nil && st.counterOnlyGuardsErrors(fin) {
+			idiom("I3 counter (in callee)")
+			return
+		}
+	}
 	if f.Kind == "store" && f.Elem && f.ConstRHS {
 		if fin := f.Final(); fin != nil {
 			if _, isMap := fin.Type().Underlying().(*types.Map); isMap {
@@ -1395,4 +1403,62 @@ func c03TemplatesReachCollector(ctx *Ctx, r *Report) {
 	if n == 0 {
 		r.OK("maporder/templates-reach-collector", "language jennies", token.NoPos, "no template is rendered inside a range over a Go map")
 	}
+}
+
+// counterOnlyGuardsErrors: every read of the field, in the whole of cog, is an increment / decrement, a reset to a
+// constant, or sits in the condition of an `if` whose body leaves with a non-nil error.
+func (st *c03State) counterOnlyGuardsErrors(field *types.Var) bool {
+	ok := true
+	uses := 0
+	for _, p := range st.ctx.Pkgs {
+		info := p.TypesInfo
+		for _, file := range p.Syntax {
+			for _, d := range file.Decls {
+				fd, isFunc := d.(*ast.FuncDecl)
+				if !isFunc || fd.Body == nil {
+					continue
+				}
+				parents := parentMap(fd)
+				ast.Inspect(fd.Body, func(n ast.Node) bool {
+					sel, isSel := n.(*ast.SelectorExpr)
+					if !isSel || fieldOf(info, sel) != field {
+						return true
+					}
+					uses++
+					switch par := parents[sel].(type) {
+					case *ast.IncDecStmt:
+						return true
+					case *ast.AssignStmt:
+						for i, l := range par.Lhs {
+							if l == ast.Expr(sel) && i < len(par.Rhs) && isConstantish(info, par.Rhs[i]) {
+								return true
+							}
+						}
+					}
+					// inside the condition of an if that leaves with an error
+					for cur := ast.Node(sel); cur != nil; cur = parents[cur] {
+						is, isIf := parents[cur].(*ast.IfStmt)
+						if !isIf || is.Cond != cur.(ast.Node) {
+							if _, isExpr := parents[cur].(ast.Expr); isExpr {
+								continue
+							}
+							if isIf {
+								break
+							}
+							break
+						}
+						if len(is.Body.List) > 0 {
+							if rs, isRet := is.Body.List[len(is.Body.List)-1].(*ast.ReturnStmt); isRet && len(rs.Results) > 0 && !isNilIdent(info, rs.Results[len(rs.Results)-1]) {
+								return true
+							}
+						}
+						break
+					}
+					ok = false
+					return true
+				})
+			}
+		}
+	}
+	return ok && uses > 0
 }
